@@ -4,23 +4,25 @@
 (* let time out, at every hop, with retries).                                 *)
 EXTENDS PFMActions
 
-CONSTANT MaxJ        \* journeys per behaviour (one after the other)
+CONSTANTS MaxJ,      \* journeys per behaviour (one after the other)
+          MaxOff     \* how often SendEnabled may be switched off in a behaviour
 
-VARIABLES S, J, nj
+VARIABLES S, J, nj, nOff
 
-vars == <<S, J, nj>>
+vars == <<S, J, nj, nOff>>
 
 Names == <<"Transfer", "Recv:final", "Recv:forward", "Recv:err", "Ack:ok", "Ack:err", "Ack:fwd-ok", "Ack:fwd-err",
            "Timeout:plain", "Timeout:giveup", "Timeout:retry", "Terminal:delivered", "Terminal:refunded",
            "Refund:move", "Refund:burn", "Refund:mint", "Unwind:2", "Depth:3", "BadChannel",
-           "Refund:move-voucher", "Refund:move-voucher-timeout", "Refund:move-voucher-onC", "Route:x", "Route:xb", "Forward:third-channel">>
+           "Refund:move-voucher", "Refund:move-voucher-timeout", "Refund:move-voucher-onC", "Route:x", "Route:xb", "Forward:third-channel",
+           "SendOff:retry-fails", "SendOff:forward-fails", "SendOff:retry-after-on", "Mid:valid">>
 Idx(n) == CHOOSE i \in DOMAIN Names : Names[i] = n
 Wit(n) == IF TLCGet(Idx(n)) = 0 THEN TLCSet(Idx(n), 1) /\ PrintT(<<"WITNESS", n>>) ELSE TRUE
 WitIf(c, n) == IF c THEN Wit(n) ELSE TRUE
 
 NoJ == [on |-> FALSE]
 
-Init == S = SetUp /\ J = NoJ /\ nj = 0 /\ \A i \in DOMAIN Names : TLCSet(i, 0)
+Init == S = SetUp /\ J = NoJ /\ nj = 0 /\ nOff = 0 /\ \A i \in DOMAIN Names : TLCSet(i, 0)
 
 Fwd(S0, P) == InfRec(S0, P.src, P.L, P.seq) # {}
 
@@ -54,6 +56,9 @@ Witnesses(a, T) ==
              /\ a.pkt.src = "C" /\ Bal(T, "C", Esc(a.pkt.L), a.pkt.d) < Bal(S, "C", Esc(a.pkt.L), a.pkt.d)
              /\ Sup(T, "C", a.pkt.d) = Sup(S, "C", a.pkt.d), "Refund:move-voucher-onC")
     /\ WitIf(a.a = "Recv" /\ T.pk # S.pk /\ \E P \in T.pk \ S.pk : ThirdChannel(P.src, P, a.pkt), "Forward:third-channel")
+    /\ WitIf(a.a = "Recv" /\ a.pkt.memo # <<>> /\ Head(a.pkt.memo).chok /\ Other(a.pkt.L, a.pkt.src) \in S.off /\ T.recv[Id(a.pkt)] = "err", "SendOff:forward-fails")
+    /\ WitIf(a.a = "Timeout" /\ Fwd(S, a.pkt) /\ S.off = {} /\ T.pk # S.pk /\ nOff > 0, "SendOff:retry-after-on")
+    /\ WitIf(a.a = "Transfer" /\ Len(a.memo) = 2 /\ a.memo[1].rcv = "rcvr", "Mid:valid")
     /\ WitIf(a.a = "Transfer" /\ Len(a.memo) >= 1 /\ a.memo[1].L = "BX", "Route:x")
     /\ WitIf(a.a = "Transfer" /\ Len(a.memo) = 2 /\ a.memo[2].L = "BC", "Route:xb")
     /\ WitIf(a.a \in {"Ack", "Timeout"} /\ Fwd(S, a.pkt) /\ Id(a.pkt) \in T.refd /\ T.inf \subseteq S.inf
@@ -65,14 +70,19 @@ Delivered(T) == J.id \in DOMAIN S.ackw /\ S.ackw[J.id] = "ok"
 Next ==
     \/ /\ Quiescent(S) /\ nj < MaxJ
        /\ \E a \in Journeys : \E r \in {Step(S, a)} :
-             /\ r.res = "ok" /\ S' = r.S /\ nj' = nj + 1 /\ Witnesses(a, r.S)
+             /\ r.res = "ok" /\ S' = r.S /\ nj' = nj + 1 /\ Witnesses(a, r.S) /\ nOff' = nOff
              /\ J' = [on |-> TRUE, snap |-> Bank(S), id |-> <<"A", "AB", NextSeq(S, "A", "AB")>>, a |-> a]
     \/ /\ ~Quiescent(S)
        /\ \E a \in Relay(S) : \E r \in {Step(S, a)} :
-             /\ r.res = "ok" /\ S' = r.S /\ nj' = nj /\ Witnesses(a, r.S)
+             \* a timeout whose retry cannot be sent fails as a whole: nothing changes
+             /\ WitIf(r.res = "err" /\ a.a = "Timeout" /\ a.pkt.src \in S.off, "SendOff:retry-fails")
+             /\ r.res = "ok" /\ S' = r.S /\ nj' = nj /\ Witnesses(a, r.S) /\ nOff' = nOff
              /\ WitIf(Terminal(r.S) /\ Delivered(r.S), "Terminal:delivered")
              /\ WitIf(Terminal(r.S) /\ ~Delivered(r.S), "Terminal:refunded")
              /\ J' = J
+    \/ /\ ~Quiescent(S)
+       /\ \E a \in (IF nOff < MaxOff THEN SendOffActs(S) ELSE {}) \cup SendOnActs(S) : \E r \in {Step(S, a)} :
+             /\ S' = [r.S EXCEPT !.now = S.now] /\ nj' = nj /\ J' = J /\ nOff' = IF a.on THEN nOff ELSE nOff + 1
 
 Spec == Init /\ [][Next]_vars
 
